@@ -34,11 +34,21 @@ func TestOracleC18(t *testing.T) {
 	keyLens := []int{0, 1, 19, 20, 21, 32, 33, 63, 64, 65, 80, 200, 300}
 	for time.Now().Before(deadline) && fails < 3 {
 		history := ""
+		var lastKey []byte
 		for step := 0; step < 6 && fails < 3; step++ {
 			cases++
 			sha256Mode := rng.Intn(2) == 0
 			key := make([]byte, keyLens[rng.Intn(len(keyLens))])
 			rng.Read(key)
+			if rng.Intn(3) == 0 && lastKey != nil {
+				// the caller reuses its key buffer: same slice, (usually) new contents
+				key = lastKey
+				if rng.Intn(4) != 0 {
+					rng.Read(key)
+				}
+				history += " (key buffer reused)"
+			}
+			lastKey = key
 			keyCopy := append([]byte(nil), key...)
 			var h, ref hash.Hash
 			if sha256Mode {
